@@ -544,3 +544,29 @@ def resolve_temps(fnode, expr, allow_subscript=False, pure_only=True, in_loops=F
             return True
         env = {n: v for n, v in env.items() if pure(v)}
     return _SubstNames(env).visit(copy.deepcopy(expr))
+
+
+def expand_expr(model, func, expr, depth=0):
+    """`expr` of `func` as one self-contained expression: single-assignment temporaries replaced by their definitions and calls to
+    package functions that consist of one `return <expression>` (after their own temporaries are resolved) replaced by that
+    expression with the arguments substituted.  Used to compare arithmetic shapes independently of helpers and temporaries."""
+    import copy
+    e = resolve_temps(func.node, expr, allow_subscript=True, pure_only=False, in_loops=True, loose=True)
+    if depth > 3:
+        return e
+
+    class T(ast.NodeTransformer):
+        def visit_Call(self, c):
+            self.generic_visit(c)
+            if isinstance(c.func, ast.Name) and not c.keywords and not any(isinstance(a, ast.Starred) for a in c.args):
+                callee = model.lookup_func(func.module, c.func.id)
+                if callee is not None and callee is not func and len(callee.params) == len(c.args):
+                    rets = [n for n in walk_no_nested(callee.node) if isinstance(n, ast.Return)]
+                    others = [n for n in callee.body() if not isinstance(n, (ast.Return, ast.Assign, ast.AnnAssign))
+                              and not (isinstance(n, ast.Expr) and isinstance(n.value, ast.Constant))]
+                    if len(rets) == 1 and rets[0].value is not None and not others and callee.body() and callee.body()[-1] is rets[0]:
+                        inner = expand_expr(model, callee, rets[0].value, depth + 1)
+                        env = dict(zip(callee.params, c.args))
+                        return _SubstNames(env).visit(copy.deepcopy(inner))
+            return c
+    return T().visit(copy.deepcopy(e))
